@@ -52,7 +52,7 @@ def plan(tier, seed):
 # ------------------------------------------------------------------------------------------------ description
 
 def gen_description(rng, chain=False):
-    n = rng.randint(4 if chain else 3, 9)
+    n = rng.randint(5 if chain else 3, 9)
     cities = [f'S{i}' for i in range(n)]
     # connected graph where several sites have degree 2 (candidates for ILA / FUSED)
     links = set()
@@ -63,14 +63,15 @@ def gen_description(rng, chain=False):
         # a line ROADM - x - y - ROADM whose two inner sites have degree 2 and are an ILA next to a FUSED site (or two ILAs)
         for i in range(1, 4):
             links.add(tuple(sorted((order[i], order[i - 1]))))
-        for i in range(4, n):
+        links.add(tuple(sorted((order[4], order[3]))))        # the line goes on behind the second ROADM
+        for i in range(5, n):
             links.add(tuple(sorted((order[i], order[rng.choice([0] + list(range(3, i)))]))))
         for _ in range(rng.randint(0, 2)):
             a, b = rng.sample([order[0]] + order[3:], 2) if n > 4 else (order[0], order[3])
             if a != b:
                 links.add(tuple(sorted((a, b))))
-        inner = rng.choice([('ILA', 'FUSED'), ('FUSED', 'ILA'), ('ILA', 'ILA'), ('ILA', 'FUSED')])
-        forced = {order[0]: 'ROADM', order[1]: inner[0], order[2]: inner[1], order[3]: 'ROADM'}
+        inner = rng.choice([('ILA', 'FUSED'), ('FUSED', 'ILA'), ('ILA', 'ILA'), ('ILA', 'FUSED'), ('ILA', 'FUSED')])
+        forced = {order[0]: 'ROADM', order[1]: inner[0], order[2]: inner[1], order[3]: 'ROADM', order[4]: 'ROADM'}
     else:
         for i in range(1, n):
             links.add(tuple(sorted((order[i], order[rng.randrange(max(0, i - 2), i)]))))
@@ -78,6 +79,7 @@ def gen_description(rng, chain=False):
             a, b = rng.sample(cities, 2)
             links.add(tuple(sorted((a, b))))
     links = sorted(links)
+    chain_sites = order[:5] if chain else None
     deg = {c: sum(1 for l in links if c in l) for c in cities}
     nodes = {}
     for c in cities:
@@ -136,7 +138,7 @@ def gen_description(rng, chain=False):
     for e in erows:
         if eff_type(nodes[e['a']], deg[e['a']]) == 'ROADM' and e['east'].get('type', '') != 'fused' and rng.random() < 0.4:
             rrows.append({'a': e['a'], 'z': e['z'], 'target': rng.choice([-20, -18.5, -21])})
-    return {'nodes': nodes, 'links': lrows, 'eqpt': erows, 'roadms': rrows, 'cities': cities}
+    return {'nodes': nodes, 'links': lrows, 'eqpt': erows, 'roadms': rrows, 'cities': cities, 'chain': chain_sites}
 
 
 def eqpt_row(rng, a, z, allow_fused):
@@ -543,7 +545,14 @@ def gen_services(rng, desc, types):
                         mids.pop()      # (an ILA named right before the destination: the direction is not decidable)
                     if mids and any(types[c] != 'ROADM' for c in mids):
                         candidates.append((a, z, mids, line))
-    for row in rows:
+    ch = desc.get('chain')
+    if ch and types[ch[1]] == 'ILA' and types[ch[2]] == 'FUSED' and all(types[c] == 'ROADM' for c in (ch[0], ch[3], ch[4])):
+        # the forced line ROADM - ILA - FUSED - ROADM - ROADM: the first service names the ILA and the ROADM behind the
+        # fused site, which stays unnamed (when the shortest site path between its ends is this line)
+        line = line_between(ch[0], ch[4])
+        if line == ch:
+            rows[0].update(src=ch[0], dst=ch[4], path=f'{ch[1]} | {ch[3]}', line=line, _unnamed_fused=True)
+    for row in rows[1:] if rows[0].get('_unnamed_fused') else rows:
         if candidates and rng.random() < 0.5:
             a, z, mids, line = rng.choice(candidates)
             if rng.random() < 0.5 and any(types[c] == 'FUSED' for c in mids) and any(types[c] != 'FUSED' for c in mids):
